@@ -130,6 +130,11 @@ structure Caller where
   lastT : Nat := 0            -- when the running recv started
   emptyAt : Option Nat := none
   viaRead : Bool := false     -- read_is_connected has returned True in this call: its wrapper still announces that value
+  -- ghost fields (never read by `step`): bookkeeping for the proofs about delays
+  reqs0 : List Req := []      -- the requests the current call started with
+  sent : Nat := 0             -- sends of the current call so far
+  popped : Nat := 0           -- requests of the current call completed
+  sendT : Nat := 0            -- time of the last send of the current call
 deriving Repr
 
 structure State where
@@ -220,7 +225,7 @@ def stepCaller (s : State) (t : Nat) (c : Nat) (e : Ev) : Option State :=
   let k := s.callers c
   match k.pc, e with
   | .idle, .call _ kind reqs =>
-    let k' : Caller := { pc := .idle, kind := kind, todo := reqs, held := k.held }
+    let k' : Caller := { pc := .idle, kind := kind, todo := reqs, held := k.held, reqs0 := reqs }
     if kind ≠ .multi ∧ 1 < reqs.length then none else      -- communicate / writeline: one request
     some (s.setC c (match kind with
       | .multi => { k' with pc := .acqO }
@@ -286,11 +291,12 @@ def stepCaller (s : State) (t : Nat) (c : Nat) (e : Ev) : Option State :=
   | .drain, .send _ conn n data =>
     if s.chan = [] ∧ s.eof = false ∧ s.conn = some conn ∧ n = s.nsend ∧ data = (current k).cmd then
       let s' := { s with rxbuf := [], nsend := s.nsend + 1 }
+      let k1 := { k with sent := k.sent + 1, sendT := t }
       if (current k).expect then
         match complete s.cfg (current k) [] with
-        | some (l, r) => some ({ s' with rxbuf := r }.setC c { k with pc := .relI, replies := k.replies ++ [l] })
-        | none => some (s'.setC c { k with pc := .read, endT := t + s.cfg.timeout, lastT := t, emptyAt := none })
-      else some (s'.setC c { k with pc := .relI })
+        | some (l, r) => some ({ s' with rxbuf := r }.setC c { k1 with pc := .relI, replies := k.replies ++ [l] })
+        | none => some (s'.setC c { k1 with pc := .read, endT := t + s.cfg.timeout, lastT := t, emptyAt := none })
+      else some (s'.setC c { k1 with pc := .relI })
     else none
   | .read, .recv _ out =>
     match out with
@@ -324,7 +330,7 @@ def stepCaller (s : State) (t : Nat) (c : Nat) (e : Ev) : Option State :=
   | .relI, .rel _ =>
     if s.owner = some c then
       let r := current k
-      let k' := { k with held := k.held - 1, todo := k.todo.drop 1 }
+      let k' := { k with held := k.held - 1, todo := k.todo.drop 1, popped := k.popped + 1 }
       some (s.release.setC c (if k.kind = .multi ∧ r.delay ≠ 0 then { k' with pc := .slpD, wakeAt := r.delay } else nextReq k'))
     else none
   | .slpD, .slp _ d =>
